@@ -15,6 +15,7 @@ import (
 	"encoding/pem"
 	"fmt"
 	"math/big"
+	"net"
 	"os"
 	"path/filepath"
 	"sort"
@@ -162,9 +163,10 @@ type CertSpec struct {
 	SelfSignKey         crypto.Signer // if set: a genuinely self-signed certificate with this key
 	KeyUsage            stdx509.KeyUsage
 	Serial              int64
-	SelfKeyed           bool     // with SelfSignKey: signed by the certificate's own key, but issued under another name (Issuer), subjectKeyId = authorityKeyId
-	OCSP                []string // authorityInfoAccess: id-ad-ocsp URIs
-	CAIssuers           []string // authorityInfoAccess: id-ad-caIssuers URIs
+	SelfKeyed           bool         // with SelfSignKey: signed by the certificate's own key, but issued under another name (Issuer), subjectKeyId = authorityKeyId
+	OCSP                []string     // authorityInfoAccess: id-ad-ocsp URIs
+	CAIssuers           []string     // authorityInfoAccess: id-ad-caIssuers URIs
+	PermittedIPs        []*net.IPNet // nameConstraints: permitted iPAddress subtrees, in this order
 }
 
 // BuildCert creates DER with the Go standard library and returns it.
@@ -206,6 +208,7 @@ func BuildCert(s CertSpec) ([]byte, error) {
 		ExtraExtensions:       s.ExtraExt,
 		OCSPServer:            s.OCSP,
 		IssuingCertificateURL: s.CAIssuers,
+		PermittedIPRanges:     s.PermittedIPs,
 	}
 	parent := &stdx509.Certificate{Subject: iss, SerialNumber: big.NewInt(1)}
 	pub := s.PubKey
